@@ -10,6 +10,7 @@ on the real library (no errors, fixed text after ≤ 1 cycle, follow-up results 
 Serializer / InternalCopy copies), and every difference between first and second dump must be one the model predicts."""
 import concurrent.futures
 import json
+import re
 import struct
 import time
 
@@ -78,7 +79,7 @@ def parse_sel(line):
     return out
 
 
-def cells_differ(a, b):
+def cells_differ(a, b, rel=None):
     """compare two selected-output tables at relative 1e-7 (+1e-15 absolute floor); returns a description of the first
     difference or None"""
     if a is None or b is None:
@@ -103,7 +104,7 @@ def cells_differ(a, b):
                     for j in range(nc):
                         if heads[j][0] == "S" and unhx(heads[j][1:]) == base and ca[(k // nc) * nc + j][0] == "D":
                             scale = max(scale, abs(unhexd(ca[(k // nc) * nc + j][1:])))
-                if u == v or abs(u - v) <= REL * scale + ABS_FLOOR:
+                if u == v or abs(u - v) <= (rel or REL) * scale + ABS_FLOOR:
                     continue
                 return f"table {un} row {k // nc} column {h}: {u!r} vs {v!r}"
             return f"table {un} cell {k}: {x} vs {y}"
@@ -184,7 +185,13 @@ def eval_case_inner(ctx, exe, case, status_of, deep=True):
     rcB, errB, warnB = parse_run(out[idx["readB"]])
     d2 = unhx(out[idx["d2"]].split()[1])
     if rcB != 0:
-        res["problems"].append(("read-error", f"{rcB} errors reading the dump into a fresh instance: {errB[:400]}"))
+        bad_num = [(k, p, v) for k, f in ents1.items() for p, v in f.items() if re.search(r"(^|\s)-?(nan|inf)(\s|$)", v)]
+        if bad_num:
+            # the calculation that produced the state ended without an error but left a non-finite number in it; the dump prints it as
+            # "nan"/"-nan"/"inf", which no RAW reader accepts
+            res["sig"].append(("non-finite-value-in-saved-state", f"{bad_num[0][0]} {bad_num[0][1]} = {bad_num[0][2]}: {errB.strip()[:160]}"))
+        else:
+            res["problems"].append(("read-error", f"{rcB} errors reading the dump into a fresh instance: {errB[:400]}"))
         return res
     fresh("C", ops)
     idx["readC"] = len(ops)
@@ -382,8 +389,12 @@ def eval_case_inner(ctx, exe, case, status_of, deep=True):
         for t, how in (("M", "of its own totals (valence-state names)/H/O/cb"), ("M1", "of its element-summed totals (plain element names)/H/O/cb"),
                        ("M2", "of the element-summed totals/H/O/cb onto a solution of another composition and valence distribution"),
                        ("M3", "of the element-summed totals and then of the valence-state totals of the dump")):
+            if t in ("M2", "M3") and "kin" in case["kinds"]:
+                continue        # two MODIFYs in a row move the starting guesses far; a rate integration amplifies that beyond any fixed bound
             if t in okay and "B" in okay:
-                d = cells_differ(okay["B"], okay[t])
+                # M1–M3 start the follow-up from other names / starting guesses than B; an adaptive rate integration (KINETICS) then
+                # reproduces its result only to its own error tolerance, not to 1e-7: judged at 1e-5 there
+                d = cells_differ(okay["B"], okay[t], 1e-5 if (t != "M" and "kin" in case["kinds"]) else None)
                 if d:
                     res["problems"].append(("modify", f"follow-up {name}: restored + SOLUTION_MODIFY {how} vs restored: {d}"))
         if "B" in okay:
@@ -561,6 +572,10 @@ MIN_CASES = {
         setup="SOLUTION 1\n temp 60\n Na 1\n Cl 1\nEND\nGAS_PHASE 1\n -fixed_volume\n -volume 1\n -temperature 40\n CH4(g) 0.005\n H2O(g) 0.03\n"
               "END\nUSE solution 1\nUSE gas_phase 1\nREACTION 5\n NaCl 1\n 0.0005\nSAVE solution 1\nSAVE gas_phase 1\nEND\n",
         followups=[("use", SEL_GAS + "USE solution 1\nUSE gas_phase 1\nREACTION 9\n HCl 1\n 0.001\nEND\n")]),
+    "non-finite-value-in-saved-state": dict(db="phreeqc.dat", adds="", kinds=["gas", "ss"], feat=["gas:fixed_volume", "gas:equilibrate"], react=True,
+        setup="SOLUTION 1 water 1\nGAS_PHASE 1\n -fixed_volume\n -equilibrate 1\n CH4(g)\n CO2(g)\nSOLID_SOLUTIONS 1\n -comp1 Aragonite 0\n"
+              " -comp2 Strontianite 0.001\n Carb2\nSAVE solution 1\n",
+        followups=[("use", "USE solution 1\nEND\n")]),
     "tied-exchanger-rederived": dict(db="phreeqc.dat", adds="", kinds=["exch", "pp"], feat=["exch:phase-related"], react=True,
         setup=TIED_SETUP,
         followups=[("use", SEL_EX + "USE solution 1\nUSE equilibrium_phases 1\nUSE exchange 1\nREACTION 9\n HCl 1\n 0.0005\nEND\n")]),
